@@ -77,6 +77,7 @@ Section Law.
     (* "can only assign an iterable" / "object is not iterable"; a zero step is reported first *)
     | SetSliceN sl => if slice_step sl =? 0 then (Raise ValueError, [TypeError]) else (Raise TypeError, [])
     | ExtendN => (Raise TypeError, [])
+    | SortPos => (Raise TypeError, [])                   (* sort() takes no positional arguments *)
     end.
 
   Definition outcome_ok (out : res unit) (sr : spec_result) : bool :=
